@@ -66,7 +66,7 @@ type c08Case struct {
 }
 
 // C08Keys: string key alphabet with reserved characters.
-var C08Keys = []string{"a", "a b", "a/b", "a,b", "a=b", "100%", "é", "中", "+", "..", "a?b", "#x", "%41", "", "a:b", ":"}
+var C08Keys = []string{"a", "a b", "a/b", "a,b", "a=b", "100%", "é", "中", "+", "..", "a?b", "#x", "%41", "", "a:b", ":", "a ", " a", " ", "\ta"}
 
 func c08Tree(m *meta.Module, name string) *model.Tree {
 	t := model.NewTree()
@@ -635,7 +635,7 @@ func (p *c08) Run(raw json.RawMessage) eng.Result {
 			}
 		}
 	case "absent":
-		absentKeys := []string{"zz", "a/zz", "no such", "A"}
+		absentKeys := []string{"zz", "a/zz", "no such", "A", "zz ", " zz", "é ", "a  "}
 		type probe struct {
 			path    string
 			kind    string
@@ -651,7 +651,10 @@ func (p *c08) Run(raw json.RawMessage) eng.Result {
 			// a module qualifier that is wrong below the root, a name holding an escaped '/', an empty segment
 			probe{"c/other:d", "unknown-module-below-root", true}, probe{"s=a/other:v", "unknown-module-below-root", true}, probe{"find:c/other:a", "unknown-module-below-root", true},
 			probe{"c%2Fd", "escaped-slash-in-name", true}, probe{"c/d%2Fx", "escaped-slash-in-name", true}, probe{"nc%2Fnl", "escaped-slash-in-name", true},
-			probe{"c//d", "empty-segment", true}, probe{"c//a", "empty-segment", true}, probe{"s=a//v", "empty-segment", true}, probe{"nc/nope", "unknown-name", true}, probe{"nc/shallow", "maybe-absent-container", false})
+			probe{"c//d", "empty-segment", true}, probe{"c//a", "empty-segment", true}, probe{"s=a//v", "empty-segment", true}, probe{"nc/nope", "unknown-name", true}, probe{"nc/shallow", "maybe-absent-container", false},
+			// a choice or a case is not a node of the data tree: their names lead nowhere
+			probe{"nc/o", "choice-name-as-segment", true}, probe{"nc/o2", "choice-name-as-segment", true}, probe{"nc/o/p", "choice-name-as-segment", true}, probe{"nc/o/p/pl", "choice-name-as-segment", true},
+			probe{"nc/p", "case-name-as-segment", true}, probe{"nc/p/pl", "case-name-as-segment", true}, probe{"nc/o3/t/o3in", "choice-name-as-segment", true})
 		for _, pr := range probes {
 			env := newC08Env(c.Tree, c.Store)
 			res.Evals++
